@@ -174,6 +174,20 @@ func (g *Gen) modOfInterface(iface *types.Interface) map[string]bool {
 				if !methodNames[sel.Obj().Name()] {
 					continue
 				}
+				if iface.NumMethods() == 0 {
+					// fmt-style consumers only call niladic Error/String/GoString and Format(State, rune)
+					sig, _ := sel.Type().(*types.Signature)
+					if sig == nil {
+						continue
+					}
+					if sel.Obj().Name() == "Format" {
+						if sig.Params().Len() != 2 {
+							continue
+						}
+					} else if sig.Params().Len() != 0 || sig.Results().Len() != 1 {
+						continue
+					}
+				}
 				if f := g.prog.MethodValue(sel); f != nil {
 					for k := range g.modOf(f) {
 						out[k] = true
@@ -206,7 +220,6 @@ var primitiveKeys = map[string]bool{
 	"sync.Mutex.Lock": true, "sync.Mutex.Unlock": true, "sync.Mutex.TryLock": true,
 	"sync.RWMutex.Lock": true, "sync.RWMutex.Unlock": true, "sync.RWMutex.RLock": true, "sync.RWMutex.RUnlock": true,
 	"sync.RWMutex.TryRLock": true, "sync.RWMutex.TryLock": true,
-	"binary.Read": true,
 }
 
 func (g *Gen) isPrimitiveKey(keys []string) bool {
